@@ -145,3 +145,33 @@ Proof.
   exact (fold_left_incl (t3_vertex art (new_vid m)) cell_ids (t3_vertex_cells art (new_vid m)) art
            (mkM (vids m ++ [new_vid m]) (ownE m ++ [(new_vid m, [])]) (ownC m ++ [(new_vid m, [])]) (medges m) (mcells m))).
 Qed.
+
+(* ------------------------------------------------------------------ grouping: every vertex of every artefact handed to the contraction is an
+   artefact vertex, and no artefact is empty *)
+Lemma grow_spec m all cur : (forall v, In v cur -> In v all) ->
+  (exists t, grow m all cur = cur ++ t) /\ (forall v, In v (grow m all cur) -> In v all).
+Proof.
+  unfold grow. generalize (last cur 0) as v0. intros v0. generalize (aget [] v0 (ownE m)) as es. intros es. revert cur.
+  induction es as [|e es IH]; intros cur Hc; cbn [fold_left].
+  - split; [exists []; rewrite app_nil_r; reflexivity | exact Hc].
+  - destruct (memZ (other_end m e v0) all && negb (memZ (other_end m e v0) cur)) eqn:E.
+    + apply andb_true_iff in E. destruct E as [E _]. apply memZ_iff in E.
+      destruct (IH (cur ++ [other_end m e v0])) as [[t Ht] Hin].
+      * intros v Hv. apply in_app_or in Hv. destruct Hv as [Hv | [<- | []]]; [apply Hc, Hv | exact E].
+      * split; [exists (other_end m e v0 :: t); rewrite Ht, <- app_assoc; reflexivity | exact Hin].
+    + apply IH, Hc.
+Qed.
+Lemma In_remove1 x y l : In x (remove1 y l) -> In x l.
+Proof. induction l as [|z l IH]; cbn [remove1]; [tauto|]. destruct (Z.eqb y z); cbn [In]; [tauto | intros [H | H]; [left; exact H | right; apply IH, H]]. Qed.
+Lemma In_fold_remove1 x cur : forall l, In x (fold_left (fun l y => remove1 y l) cur l) -> In x l.
+Proof. induction cur as [|y cur IH]; intros l H; cbn [fold_left] in H; [exact H | apply IH in H; apply In_remove1 in H; exact H]. Qed.
+Theorem group_spec m : forall fuel all g, In g (group fuel m all) -> g <> [] /\ forall v, In v g -> In v all.
+Proof.
+  induction fuel as [|f IH]; intros all g Hg; [destruct Hg|]. destruct all as [|a all]; [destruct Hg|]. cbn [group] in Hg.
+  destruct (grow_spec m (a :: all) [a]) as [[t Ht] Hin]; [intros v [<- | []]; left; reflexivity|].
+  destruct Hg as [<- | Hg].
+  - split; [rewrite Ht; discriminate | exact Hin].
+  - destruct (IH _ _ Hg) as [Hne Hsub]. split; [exact Hne|]. intros v Hv. apply Hsub in Hv. apply In_fold_remove1 in Hv. exact Hv.
+Qed.
+Theorem artefacts_consist_of_artefact_vertices m g : In g (artefacts m) -> g <> [] /\ forall v, In v g -> In v (get_artifacts m).
+Proof. unfold artefacts. apply group_spec. Qed.
